@@ -720,8 +720,7 @@ def memberVal (b : Val) (name : String) (op : MemberOp) (_sp : Span) : M Val := 
       if name == "start" then pure (.int x) else if name == "end" then pure (.int y) else pure (.bound b name)
     | _ => pure (.bound b name)
   -- `o->k`: the data field `k` of an any-object as an option (Member_Anyobj); `o~>k`: that option
-  -- unwrapped (Member_Anyobj; Member_Unwrap). The VM is the reference here: the interpreter ignores the
-  -- operator (finding M3), so programs using them are not generated.
+  -- unwrapped (Member_Anyobj; Member_Unwrap; the interpreter's memberExpression does the same since fix V42).
   | .arrow =>
     match b with
     | .ref a => do
